@@ -114,6 +114,10 @@ def g_vals(rng, ty, n):
 
 
 def g_typed(rng):
+    if rng.random() < 0.12:      # a UDT: STRUCT type, structure handle, opaque record bytes
+        raw = bytearray(g_int(rng, 8) for _ in range(rng.choice([1, 2, 4, 7, 16])))
+        return {"type": 0x2a0, "structure_tag": rng.choice([1, 0x1234, 0xffff, g_int(rng, 16) or 1]),
+                "data": dd({"input": raw})}
     ty = rng.choice(list(TYPES))
     return {"type": TYPES[ty], "data": g_vals(rng, ty, rng.choice([1, 1, 2, 3, 7]))}
 
@@ -395,7 +399,9 @@ def render_fields(data, svc_level=True):
             continue
         if isinstance(v, bool) and leaf not in ("large",):
             continue          # markers such as read_tag=True
-        if leaf == "data" and k.rsplit(".", 1)[0] + ".type" in items:
+        if k.endswith(".data.input") and items.get(k[:-len(".data.input")] + ".type") == 0x2a0:
+            out[k[:-len(".input")]] = hx(bytes(bytearray(v)))      # UDT record bytes
+        elif leaf == "data" and k.rsplit(".", 1)[0] + ".type" in items:
             out[k] = hx(enc_typed(items[k.rsplit(".", 1)[0] + ".type"], v))
         elif leaf == "data" and k.startswith("status_ext"):
             if len(v):
